@@ -876,6 +876,11 @@ def c04_oracle(c, impl):
     exp = expected_paths(m['d'], m['b'], m['e'], m['frames'], w)
     if ps[0] != '' or ps[-1] != '':
         f.append('an index outside [0,len) gave %r / %r' % (ps[0], ps[-1]))
+    if 'M_repad' in kv:
+        rp = [unhx(x).decode('latin-1') for x in kv['M_repad'].split(',')]
+        want = [m['d'] + m['b'] + py_zfill(-5, 9) + m['e'], m['d'] + m['b'] + py_zfill(m['frames'][0], 2) + m['e']] if m['frames'] else rp
+        if rp != want:
+            f.append('after SetPadding("%%09d") / SetPadding("@@") on the queried sequence: Frame(-5), Index(0) = %r, expected %r' % (rp, want))
     if '1' in kv.get('M_far', ''):
         f.append('an index far outside [0,len) gave a path (probe pattern %s)' % kv['M_far'])
     if ps[1:-1] != exp:
@@ -1416,6 +1421,10 @@ def c07_cases(rng, tier):
                base + '12a' + ext, base + ' 7' + ext, base + '99999999999999999999' + ext,
                base + ext[1:], base[:-1] + ext, base + ext[-1:]]        # prefix and suffix overlap
         ents = ['F:' + x for x in names]
+        if len(names) >= 2 and rng.random() < 0.25:
+            # some of the frames are links to regular files (frames linked into a store directory)
+            linked = set(rng.sample(names, rng.randint(2, len(names))))
+            ents = [('LF:' if x in linked else 'F:') + x for x in names]
         for x in rng.sample(sib, rng.randint(0, 5)):
             if x and x not in names and '/' not in x:
                 ents.append(rng.choice(['F:', 'F:', 'F:', 'D:', 'LF:', 'LS:']) + x)
